@@ -68,6 +68,26 @@ CLAIMED = {
             "Same atomicity and fake-network assumptions as C04; DWAs/DWRs of the base protocol may appear between "
             "whole messages; quiescence judged after 8 idle virtual seconds.",
             "DESIGN.md 4/C05"),
+    "C06": ("HIST", "model_checking",
+            "explicit-state breadth-first search over event histories replayed on the real node under a controlled scheduler",
+            "BFS over histories of peer/local events (valid and invalid CER/CEA/DWR/DWA/DPR/DPA, application traffic, "
+            "misaddressed requests, back-to-back requests in one read, connect ack/refusal, close, send, peer disconnect, "
+            "idle watchdog periods, one restart) for both roles, 0..2 applications and two watchdog settings, to closure "
+            "of the canonical state space or depth 12/14; each transition replays the whole history on a fresh real "
+            "Diameter object on the virtual runtime (d = 0) and is judged by the reference relation of DESIGN.md "
+            "Appendix A (R1-R20, G1-G4).",
+            "Threads run under the deterministic fair default schedule between events; events are injected at "
+            "quiescent points; election states of RFC 6733 that the library leaves unimplemented are accepted where "
+            "the relation says so.",
+            "DESIGN.md 4/C06 + Appendix A"),
+    "C07": ("HIST", "model_checking",
+            "same explicit-state search as C06, answer-matching clauses",
+            "In every explored history every emitted CEA/DWA/DPA is matched to exactly one request received in that "
+            "step (command code, R clear, Hop-by-Hop, End-to-End from a boundary alphabet), carries the local origin "
+            "and a Result-Code, and answers leave in request order, including two base requests in one read and a "
+            "connection reopened with the same node object.",
+            "Same assumptions as C06; identifiers are opaque tokens (data independence).",
+            "DESIGN.md 4/C07"),
     "C09": ("ENUM", "exploration",
             "bounded-exhaustive enumeration of constructor-argument subsets against a hand-written command table",
             "All 50 typed classes (discovered by introspection) x subsets of omittable arguments (sizes 0,1,2,n "
